@@ -3818,9 +3818,22 @@ FROM (
                 builder.cross_join(info["table_src"], info["sql_alias"])
                 continue
             right_alias = info["sql_alias"]
+
+            def _left_key(k: str, upto: int = idx) -> str:
+                # FULL JOIN: a row may come from any preceding operand, so the key of the
+                # accumulated left side is the COALESCE over all of them.
+                if node.op == tokens.FULL_JOIN:
+                    prev = [
+                        f"{i['sql_alias']}.{quote_name(k)}"
+                        for i in clause_info[: upto + 1]
+                        if k in i["ds"].components
+                    ]
+                    if len(prev) > 1:
+                        return f"COALESCE({', '.join(prev)})"
+                return f"{comp_to_alias.get(k, first_sql_alias)}.{quote_name(k)}"
+
             on_parts = [
-                f"{comp_to_alias.get(k, first_sql_alias)}.{quote_name(k)} = "
-                f"{right_alias}.{quote_name(k)}"
+                f"{_left_key(k)} = {right_alias}.{quote_name(k)}"
                 for k in pairwise_keys[idx]
                 if k in info["ds"].components
             ]
